@@ -321,6 +321,12 @@ class _SegDom(Domain):
                     s.add('moof-moved')
                 if cn == 'atom.encode':
                     s.add('encoded')
+        # removing a top-level box moves the moof whenever that box is stored in front of it (a sidx
+        # usually is: `styp sidx moof mdat`) - where it is stored is not known to the handler
+        if isinstance(st, ast.Delete) and any(isinstance(t, ast.Attribute) and norm(t.value) == 'atom'
+                                              and t.attr not in ('moof', 'mdat') for t in st.targets):
+            s.add('moof-moved')
+            s.add('top-level-delete')
         if 'tfhd.base_data_offset = None' in txt:
             s.add('base-reset')
         if 'data_offset_present' in txt and 'flags |=' in txt:
@@ -410,10 +416,13 @@ def r03_4_5(rep: Report) -> None:
         rep.ok('R03.5', c, 'moof edit -> tfhd.base_data_offset reset',
                f'{len(moved)} path(s) with an insertion all reach the reset before encode')
     else:
+        culprit = next(s_ for s_ in moved if 'base-reset' not in s_)
+        what = 'deletes a top-level box (a sidx stored in front of the moof moves it)' \
+            if 'top-level-delete' in culprit and 'traf-edited' not in culprit else \
+            'inserts an emsg/tfdt box (the moof moves or grows)'
         rep.fail('R03.5', c, 'moof edit -> tfhd.base_data_offset reset',
-                 'a path inserts an emsg/tfdt box (the moof moves or grows) and reaches '
-                 'atom.encode() without resetting tfhd.base_data_offset: trun/saio offsets are '
-                 'computed against the stored moof position', fn)
+                 f'a path {what} and reaches atom.encode() without resetting tfhd.base_data_offset: '
+                 'trun/saio offsets are computed against the stored moof position', fn)
     tr = [s for s in results if 'traf-edited' in s]
     if tr and all('trun-forced' in s for s in tr):
         rep.ok('R03.5', c, 'traf edit -> trun data_offset forced')
